@@ -215,6 +215,45 @@ Proof.
   apply attrs_roundtrip; assumption.
 Qed.
 
+(* what the discoverer parses out of the compressed announcement *)
+Lemma announcement_wire : forall i service inst ttl h recs,
+  let full := inst :: service in
+  instance_ok i full ttl ->
+  h_id h < 65536 -> named_opcode (h_opcode h) -> named_rcode (h_rcode h) -> rcode_disc (h_rcode h) < 16 -> (exists k, k < 128 /\ h_flags h = flagset k) ->
+  into_records i full ttl = Ok recs ->
+  let its := norm_items (map (fun s => (0, s)) (map txt_entry (i_attrs i))) in
+  write_packet_compressed (announcement h recs) = Ok (encc_packet (announcement h (instance_records i full ttl its))) /\
+  parse_packet (encc_packet (announcement h (instance_records i full ttl its))) = Ok (announcement h (instance_records i full ttl its)) /\
+  attributes (map (@snd N (list byte)) its) = i_attrs i.
+Proof.
+  intros i service inst ttl h recs full Hok Hid Hop Hrc Hrc16 Hfl Hrec its'.
+  destruct (into_records_shape i full ttl recs Hrec) as [-> Hent].
+  set (its := map (fun s => (0, s)) (map txt_entry (i_attrs i))).
+  fold (instance_records i full ttl its). unfold its'. fold its.
+  set (p' := announcement h (instance_records i full ttl (norm_items its))).
+  assert (Hwf : wf_packet p').
+  { constructor; cbn [p' announcement hdr popt qs ans nss adds].
+    - exact Hid.
+    - exact Hop.
+    - exact Hrc.
+    - exact Hfl.
+    - intros _. exact Hrc16.
+    - intros o Ho. discriminate.
+    - constructor.
+    - apply instance_records_wf; assumption.
+    - constructor.
+    - constructor.
+    - unfold opt_count, p', announcement. cbn [popt]. change (len (@nil question)) with 0. change (len (@nil rr)) with 0.
+      unfold instance_records. rewrite !len_app. unfold len in *. rewrite !map_length. destruct Hok as [_ _ _ _ _ _ Hc _]. unfold len in Hc. cbn [length]. lia. }
+  split; [|split; [apply (packet_roundtrip_compressed _ Hwf)|apply attributes_norm; apply Hok]].
+  unfold write_packet_compressed.
+  assert (Hwr : packet_writable (announcement h (instance_records i full ttl its)) = true).
+  { unfold packet_writable, announcement. cbn [ans nss adds]. rewrite !app_nil_r. apply forallb_forall. intros r Hr.
+    unfold instance_records in Hr. rewrite !in_app_iff in Hr. destruct Hr as [Hr|[Hr|[<-|[]]]]; [| |reflexivity];
+      apply in_map_iff in Hr; destruct Hr as (x & <- & _); [destruct x as [[|] a]|]; reflexivity. }
+  rewrite Hwr. f_equal. unfold p'. rewrite <- instance_records_norm. symmetry. apply encc_announcement_norm.
+Qed.
+
 (* C15, one announcement: the instance's records are sent in a compressed packet; what the discoverer builds from the
    records it keeps is the advertised instance *)
 Theorem advertised_instance_discovered : forall i service inst me ttl h recs,
